@@ -192,7 +192,7 @@ func checkC16(c *Ctx) {
 	}
 	var pkgs []pkg
 	var progs []*Prog
-	for i := 0; i < c.pick(30, 90); i++ {
+	for i := 0; i < c.pick(30, 60); i++ {
 		p, d := c16Package(r, fmt.Sprintf("c16-%d", i), i%3)
 		pkgs = append(pkgs, pkg{p, d, i%3 == 2})
 		progs = append(progs, p)
@@ -201,7 +201,7 @@ func checkC16(c *Ctx) {
 	calibrateGo(c, b, "c16")
 	layoutCache := map[string][][][]int{}
 	nameSets := [][]string{{"a.go", "b.go", "c.go"}, {"decl.go", "main.go", "z_last.go"}, {"0.go", "m.go", "x_y.go"}, {"impl.go", "types.go", "util.go"}}
-	perPkg := c.pick(250, 1200)
+	perPkg := c.pick(250, 1000)
 	for pi, pk := range pkgs {
 		behs := b.Behs[pk.p.ID]
 		if len(behs) != 1 {
